@@ -20,7 +20,7 @@ for c in corpus:
         b=sh(['go','build','./...'],cwd='/repo',env=dict(os.environ,GOFLAGS='-mod=mod',GOPROXY='off',GOSUMDB='off',GOTOOLCHAIN='local'))
         if b.returncode!=0:
             print('NOBUILD %-34s %s'%(c['name'],b.stderr[:200])); bad+=1; continue
-        r=sh(['/verif/bin/vcheck','check',c['prop']],cwd='/verif')
+        r=sh(['/verif/bin/vcheck','check',c['prop']],cwd='/verif',env=dict(os.environ,VERIF_EVIDENCE_DIR='/verif/out/evidence-trial'))
         obs=re.findall(r'obligation=(\S+)',r.stdout)
         if c.get('benign'):
             ok=r.returncode==0
